@@ -15,6 +15,7 @@ structure State where
   pipeValid : Bool := false
   pipePol : Policy := { mode := .off, caps := KTab.const 0 }
   failed : List Nat := []
+  pipeFwd : Bool := false         -- forwarder mode
   pipeFO : Bool := false          -- failover middleware with one fallback server
   answered : List Nat := []       -- names a fallback answer is cached for
   loops : List (Nat × List String) := []
@@ -124,7 +125,7 @@ def step (st : State) (w : List String) : State × String :=
     match parseCsv raw, parseCsv dflt with
     | some r, some d =>
       match policyFromConfig mode r d with
-      | some p => ({ st with pipeValid := true, pipePol := p, failed := [], answered := [], pipeFO := opts == ["failover"] }, polStr p)
+      | some p => ({ st with pipeValid := true, pipePol := p, failed := [], answered := [], pipeFO := opts == ["failover"], pipeFwd := opts == ["forwarder"] }, polStr p)
       | none => ({ st with pipeValid := false }, "invalid")
     | _, _ => (st, "bad-op")
   | ["pipe", "late", _id, k, during, after] =>
@@ -146,6 +147,12 @@ def step (st : State) (w : List String) : State × String :=
     match len.toNat?, parseBool edns, parseBool warm with
     | some len, some edns, some warm =>
       if warm then (st, "warmed") else
+      if st.pipeFwd then
+        let (sh, up, ok) := runOps st.pipePol {} (forwardOps len)
+        if ok then (st, s!"rcode=0 an={len + 1} ede=- up={up}") else
+        let r := servfailReply st.pipePol sh edns none
+        (st, s!"rcode={r.rcode} an=0 ede={match r.ede with | some e => toString e | none => "-"} up={up}")
+      else
       -- every hop of the alias chain is one internal sub-query of the cache's chase, cached or not
       let ops : List ApiOp := (List.range len).map fun _ => .debit .internal true
       let sh := ops.foldl (fun sh op => (apiStep st.pipePol sh op).1) ({} : Shared)
@@ -201,6 +208,19 @@ def step (st : State) (w : List String) : State × String :=
       let c := normCap cap d
       if m = .enforce ∧ c < maxq then (st, s!"depth={c} err=limit") else (st, s!"depth={maxq} err=maxrec")
     | _, _, _, _ => (st, "bad-op")
+  | ["pick", "fallback", rcs, ncfg, errs] =>
+    match (if rcs == "-" then some [] else (rcs.splitOn ",").mapM String.toNat?), ncfg.toNat? with
+    | some rcodes, some n =>
+      let es : List LookupErr := if errs == "-" then [] else errs.toList.map fun c =>
+        if c == 'w' then .workLimit else if c == 'a' then .attemptLimit else .other
+      match pickFallback rcodes n es with
+      | .work => (st, "work")
+      | .attempt => (st, "attempt")
+      | .resp i => (st, s!"resp{i}")
+      | .config => (st, "config0")
+      | .conn => (st, "conn")
+      | .none => (st, "none")
+    | _, _ => (st, "bad-op")
   | ["loop", "new"] => ({ st with loops := [] }, "ok")
   | ["loop", "check", name, qtype] =>
     match qtype.toNat? with
